@@ -314,6 +314,7 @@ type simTransport struct {
 	cuts         map[string]armedCut // per client: body fault of its next POST
 	lastCutClass map[string]string   // per client
 	lastCutInFile map[string]bool    // per client: the body ended inside the content of a part that is a file
+	lastCutPart   map[string]int     // per client: index of that part in the form (the server numbers stored files by it)
 	reqN    int
 	dead    bool
 	// census of the last POST body
@@ -332,6 +333,11 @@ type simBody struct {
 	seen  []byte // bytes delivered so far (to classify where a cut fell)
 	bound string
 	who   string
+}
+
+// cutPart: index of the part in which the body ended (parts are counted from 0 in the order they were sent).
+func (b *simBody) cutPart() int {
+	return bytes.Count(b.seen, []byte("--"+b.bound)) - 1
 }
 
 // cutInFile: the part in which the body ended is a file part (its headers name the form field "file").
@@ -379,6 +385,7 @@ func (b *simBody) Read(p []byte) (int, error) {
 			b.tr.mu.Lock()
 			b.tr.lastCutClass[b.who] = b.cutClass()
 			b.tr.lastCutInFile[b.who] = b.cutInFile()
+			b.tr.lastCutPart[b.who] = b.cutPart()
 			b.tr.mu.Unlock()
 			return 0, io.EOF
 		}
@@ -386,6 +393,7 @@ func (b *simBody) Read(p []byte) (int, error) {
 		b.tr.mu.Lock()
 		b.tr.lastCutClass[b.who] = "broken:" + b.cutClass()
 		b.tr.lastCutInFile[b.who] = b.cutInFile()
+		b.tr.lastCutPart[b.who] = b.cutPart()
 		b.tr.mu.Unlock()
 		return 0, io.ErrUnexpectedEOF
 	}
